@@ -15,7 +15,9 @@ RULE = ('random top-level sequences (1-28 ops) of add_processor / remove_process
         'or explicit argument (0 and negatives included, ties likely), in half of the cases 1-3 '
         'processor bodies run scripts of 1-3 add_processor / remove_processor / get_processor '
         'actions on their world during every frame, handler kinds '
-        'none / on_add / on_remove / both / unrelated event with renamed callbacks, every callback '
+        'none / on_add / on_remove / both / unrelated event with renamed callbacks, ~30% of the '
+        'classes with a hostile __eq__ (always True / always False / equal by class, identity '
+        'hash) and ~30% falsy (__bool__ False / __len__ 0), every callback '
         '(on_add, on_remove, process) re-entrantly reads world.processors and get_processor of '
         'every class (read-only), dt dyadic; '
         'after every op world.processors is read; distinct = different (case, trace); '
@@ -78,7 +80,10 @@ def gen_case(rng, big=False):
             bases=bs,
             prio=rng.choice(PRIOS) if rng.random() < 0.5 else None,
             decl=decl,
-            rename=bool(decl) and rng.random() < 0.4))
+            rename=bool(decl) and rng.random() < 0.4,
+            # processors hostile to == (the world must go by identity / exact type) and falsy
+            eq=rng.choice([None, None, None, None, None, None, None, 'true', 'false', 'class']),
+            falsy=rng.choice([None, None, None, None, None, 'bool', 'len'])))
     ni = rng.randint(1, 9)
     insts = []
     for _ in range(ni):
@@ -123,6 +128,26 @@ def gen(rng, tier):
 
 
 # ------------------------------------------------------------ implementation
+def hostile_ns(eq, falsy):
+    """class attributes of a processor that is hostile to == and to truth tests"""
+    ns = {}
+    if eq == 'true':
+        ns['__eq__'] = lambda self, other: True
+        ns['__ne__'] = lambda self, other: False
+    elif eq == 'false':
+        ns['__eq__'] = lambda self, other: False
+        ns['__ne__'] = lambda self, other: False
+    elif eq == 'class':
+        ns['__eq__'] = lambda self, other: type(self) is type(other)
+    if eq:
+        ns['__hash__'] = object.__hash__
+    if falsy == 'bool':
+        ns['__bool__'] = lambda self: False
+    elif falsy == 'len':
+        ns['__len__'] = lambda self: 0
+    return ns
+
+
 def build(case, desper, log, ctx=None):
     """The processor classes and instances of a case, as real Python objects.
 
@@ -165,6 +190,7 @@ def build(case, desper, log, ctx=None):
               'added': cb('add'), 'removed': cb('rm'), 'othered': cb('other')}
         if c['prio'] is not None:
             ns['priority'] = c['prio']
+        ns.update(hostile_ns(c.get('eq'), c.get('falsy')))
         bases = tuple(classes[j] for j in c['bases']) or (root_base,)
         cls = type('P%d' % i, bases, ns)
         if c['decl']:
